@@ -158,6 +158,11 @@ var vRules = []vRule{
 		o.eidRaw = map[string][]byte{[]string{"dst", "rpt"}[r.intn(2)]: w.buf}
 		return true
 	}},
+	{"eid-dtn-other-major", func(r *vRng, b *Bundle, o *vOver, now uint64) bool {
+		it := [][]byte{{0x20}, {0x40}, {0x80}, {0xa0}, {0xf4}, {0x38, 0x05}, {0x43, '/', '/', 'a'}}[r.intn(7)]
+		o.eidRaw = map[string][]byte{[]string{"dst", "rpt"}[r.intn(2)]: append([]byte{0x82, 0x01}, it...)}
+		return true
+	}},
 	{"eid-dtn-demux-lf", func(r *vRng, b *Bundle, o *vOver, now uint64) bool {
 		b.PrimaryBlock.Destination = EndpointID{DtnEndpoint{NodeName: "n", Demux: "a\nb"}}
 		return true
@@ -239,10 +244,16 @@ var vRules = []vRule{
 			vInsert(b, 0, CanonicalBlock{BlockNumber: vFreeNum(b, r), Value: NewHopCountBlock(3)})
 			i = 0
 		}
+		// either field out of the uint8 range; a count of exactly 256 would wrap to 0
 		w := &vW{}
 		w.array(2)
-		w.uint(256 + uint64(r.intn(3)))
-		w.uint(1)
+		if r.chance(50) {
+			w.uint(256 + uint64(r.intn(3)))
+			w.uint(1)
+		} else {
+			w.uint(uint64(r.intn(256)))
+			w.uint([]uint64{256, 256, 512, 1 << 32, 257}[r.intn(5)])
+		}
 		o.inner = map[int][]byte{i: w.buf}
 		return true
 	}},
@@ -620,7 +631,7 @@ func TestVerifC02(t *testing.T) {
 
 	nBase, nBuild, nFrag := 60, 1500, 60
 	if thorough {
-		nBase, nBuild, nFrag = 2500, 60000, 2500
+		nBase, nBuild, nFrag = 1200, 40000, 1500
 	}
 
 	for pi, extra := range [][]uint64{nil, vExtraTypes} {
